@@ -17,12 +17,18 @@
    clause is shown necessary by a closed counterexample in B2F/ConformP.v.  The one-sided
    statement first written here (any peer) is refuted (C05_first_statement_refuted: e.g. a
    peer line ";FW: X>" ends the greeting for the grammar but not for the library; an offset
-   request above 999999 is restarted at 0 by the library); for the library's sending turn
-   against an arbitrary peer the synchronisation step is proved (C05_sender_turn); the
-   receiving turn and the greeting against an arbitrary peer are decided per run by the
-   extracted validator and the reference peer. *)
+   request above 999999 is restarted at 0 by the library).  The CORRECTED one-sided statement
+   is a theorem (C05_one_side_conforms, B2F/ConformOneP.v): against ANY peer stream whose
+   offset requests respect the protocol limit (elem_off) and -- when the peer is the master --
+   whose greeting lines are read alike by both readers (greet_agree), every complete session
+   of a conforming library side is either accepted in full or the PEER is the one blamed.
+   Both conditions on the peer are shown necessary by closed counterexamples; the conditions
+   on the library's configuration beyond side_conf (cfg_scope: a master without MOTD that ends
+   its greeting with the prompt; a slave without a password callback) are a restriction of the
+   proof's scope (secure login and harmless MOTD lines are decided per run by the extracted
+   validator and the reference peer, not by this theorem). *)
 From Verif Require Import Base.Bytes Base.Utf8 B2F.Secure B2F.Side B2F.Grammar B2F.GrammarP
-  B2F.PairDefs B2F.PairP B2F.DeliverP B2F.ConformP.
+  B2F.PairDefs B2F.PairP B2F.DeliverP B2F.ConformP B2F.ConformOneP.
 Open Scope N_scope.
 
 (* FULL STATEMENT (not asserted): whatever the peer sends, as long as the grammar accepts the
@@ -41,6 +47,24 @@ Definition C05_conforming_statement : Prop :=
 Theorem C05_first_statement_refuted : ~ C05_conforming_statement.
 Proof. exact C05_statement_is_false. Qed.
 Print Assumptions C05_first_statement_refuted.
+
+(* the CORRECTED one-sided statement: any peer stream within peer_ok; only the peer can be blamed *)
+Theorem C05_one_side_conforms : forall (cfg : side_cfg) (peer_stream : bytes),
+  side_conf cfg -> cfg_scope cfg -> peer_ok cfg peer_stream ->
+  let o := exchange cfg peer_stream in
+  x_res o = XNil ->
+  let '(m, s) := if c_master cfg then (x_wire o, peer_stream) else (peer_stream, x_wire o) in
+  match validate m s with VOk => True | VBad who _ _ => who <> c_master cfg end.
+Proof. exact one_side_conforms. Qed.
+Print Assumptions C05_one_side_conforms.
+
+(* the conditions on the peer are needed: each stream below meets one and not the other, the
+   session completes and the LIBRARY is blamed *)
+Example C05_peer_greeting_needed := (greeting_desync_elem_off, greeting_desync_not_agree, greeting_blank_cx,
+                                     greeting_blank_elem_off, greeting_blank_not_agree).
+Example C05_peer_offsets_needed := (offset_limit_agree, offset_limit_not_off).
+(* the hypotheses are met by a concrete master/slave-stream pair that completes and is accepted *)
+Example C05_one_side_instance := (cx_slave_stream_ok, cx_slave_stream_peer_ok).
 
 (* WHOLE SESSIONS of two library sides: the independent grammar accepts both streams in full *)
 Theorem C05_pair_conforms : forall (a b : side_cfg),
